@@ -141,6 +141,30 @@ func systematic13() []seqCase {
 			}
 		}
 	}
+	// B2. UTF-8 at the END of a payload of every interesting total length (a reason filling the control frame, a text whose
+	// length sits on a length-encoding boundary): complete, truncated and invalid sequences behind an ASCII pad
+	{
+		tails := []struct {
+			s  string
+			cl string
+		}{{"\xc2\xa2", "valid"}, {"\xe2\x82\xac", "valid"}, {"\xf0\x9f\x98\x80", "valid"},
+			{"\xc2", "truncated"}, {"\xe2", "truncated"}, {"\xe2\x82", "truncated"}, {"\xf0", "truncated"}, {"\xf0\x9f", "truncated"}, {"\xf0\x9f\x98", "truncated"},
+			{"\xff", "invalid"}, {"\xc0\x80", "invalid"}, {"\xed\xa0\x80", "invalid"}, {"\x80", "invalid"}}
+		for _, t := range tails {
+			for _, total := range []int{len(t.s), len(t.s) + 1, 8, 61, 119, 120, 121, 122, 123} {
+				if total < len(t.s) {
+					continue
+				}
+				reason := append(bytes.Repeat([]byte("r"), total-len(t.s)), t.s...)
+				add("utf8-tail-"+t.cl+"/close-reason", false, total != 123 && total != len(t.s), closeFrame(1000, reason), tail)
+			}
+			for _, total := range []int{125, 126, 127, 65535, 65536, 65537} {
+				text := append(bytes.Repeat([]byte("t"), total-len(t.s)), t.s...)
+				add("utf8-tail-"+t.cl+"/text-whole", false, true, dataFrame(1, true, text), tail)
+				add("utf8-tail-"+t.cl+"/text-2-fragments", false, true, append(fragments(1, text, []int{total - len(t.s)}), tail)...)
+			}
+		}
+	}
 	// C. close codes
 	codes := []int{0, 1, 999, 1000, 1001, 1002, 1003, 1004, 1005, 1006, 1007, 1008, 1009, 1010, 1011, 1012, 1013, 1014, 1015, 1016,
 		1100, 1999, 2000, 2999, 3000, 3001, 3999, 4000, 4999, 5000, 5001, 9999, 32768, 65535}
